@@ -9,31 +9,19 @@ HOOK_COMMITS = ["0aef0c9", "20de43e"]
 FIX_COMMITS = ["234becf", "790b4d0", "4f01341", "60bfb90", "0b426b2", "e95a0ef", "699cec2", "fc3df1b", "a483ad6",
                "121ee44", "95ae875", "df3147f", "78b42a1", "f364479", "6b53a15", "8342e2c"]
 
-ENGINES = [
-    {"name": "S", "path": "coq/SemModel.v coq/SemProofs.v harness/src/bin/sem.rs coq/driver/drv_S.ml",
-     "serves_properties": ["C19"],
-     "kind_free_text": "labelled transition system of semaphore.rs (unbounded threads), inductive invariants; "
-                       "real semaphore.rs under a deterministic scheduler, traces validated by the extracted model"},
-]
+def _load_dir(d):
+    out = {}
+    base = os.path.join(os.path.dirname(os.path.abspath(__file__)), d)
+    for f in sorted(os.listdir(base)):
+        if f.endswith(".json"):
+            out[f[:-5]] = json.load(open(os.path.join(base, f)))
+    return out
 
-# property id -> dict(engine, text, note, technique, design_ref)
-CHECKS = {
-    "C19": dict(
-        engine="S",
-        technique="Coq proof of inductive invariants of a transition-system model (unbounded threads/steps) + trace validation of the real semaphore.rs under a deterministic scheduler against the extracted model",
-        text="Rocq theorems over an executable transition system of semaphore.rs for ANY number of threads and steps and every "
-             "scheduling/notify-victim/spurious-wake-up choice: permit conservation and holders<=permits (C19_safety), mutual exclusion, "
-             "the wake-up invariant and its progress form (a free permit while somebody sleeps always leaves an enabled internal step), "
-             "termination of internal steps under every schedule and the shape of the settled state (nobody asleep while a permit is free), "
-             "restoration of the permit count.  The model is tied to the code on every run: the current semaphore.rs is compiled against "
-             "instrumented Mutex/Condvar, driven through DFS/PRNG schedules, and each event trace must be a path of the model "
-             "(validator extracted from the same `fire` function the theorems are about; soundness of the event mapping is itself a theorem).",
-        note="Trusted: Coq kernel; extraction (ExtrOcamlBasic) and the OCaml driver; the harness scheduler and the textual swap of the "
-             "std::sync import; std::sync::Mutex/Condvar semantics and everything below them (memory model, futex). Fairness of the OS "
-             "scheduler is not modelled: liveness is stated as 'internal steps terminate and the settled state has no sleeper with a free permit'.",
-        design_ref="DESIGN.md §5 engine S, §6 C19",
-    ),
-}
+
+# one file per engine / per claimed property: vlib/engines/<E>.json, vlib/claims/<Cxx>.json
+# (claim = dict(engine, technique, text, note, design_ref))
+ENGINES = list(_load_dir("engines").values())
+CHECKS = _load_dir("claims")
 
 NOT_APPLICABLE = []   # filled below with the properties not yet claimed
 
